@@ -93,6 +93,9 @@ def runOp (uid : Nat) (c : GClient) (op : String) : Option (GClient × String) :
   | 'C' :: _ =>
     -- the transport's read granularity changes: invisible to every layer above the link
     some (c, showStep "ok" [] [])
+  | 'S' :: _ =>
+    -- the transport's read granularity changes: invisible to every layer above the link
+    some (c, showStep "ok" [] [])
   | 'T' :: rest => do
     let e ← parseInEvent (String.ofList rest)
     match clientTryWrite c e with
